@@ -20,6 +20,7 @@ class ScriptedRNG(np.random.RandomState):
          ["u", x1e6]     uniform: random_sample()/rand() -> x1e6 / 1e6
          ["perm", [..]]  permutation(n) (1-based entries)
          ["k", v]        raw randint value (0-based)
+         ["q", a,b,c,d]  four node ids (1-based) for pick_four_unique_nodes_quickly: randint(n**4)
     If the code asks for something the script does not hold, the run is marked
     off-script and a seeded fallback stream takes over."""
 
@@ -56,9 +57,13 @@ class ScriptedRNG(np.random.RandomState):
                 v = self.pending
                 self.pending = None
                 return v
-            it = self._next(("p", "r", "k"), "randint")
+            it = self._next(("p", "r", "k", "q"), "randint")
             if it is None:
                 return super().randint(low, high)
+            if it[0] == "q":
+                n = int(round(low ** 0.25))
+                a, b, c, d = (x - 1 for x in it[1:5])
+                return a + b * n + c * n * n + d * n ** 3
             if it[0] == "p":
                 self.pending = it[2] - 1
                 return it[1] - 1
